@@ -2,6 +2,7 @@ import GdcVerif.Driver.Util
 import GdcVerif.Model.J2kTiles
 import GdcVerif.Model.J2kSample
 import GdcVerif.Model.J2kLossless
+import GdcVerif.Model.J2kTagTree
 /-! Line-protocol ops for the JPEG 2000 pipeline-logic checks C19 / C04 / C05. -/
 namespace Drv.J2k
 open Drv
@@ -22,7 +23,71 @@ def triples (ls : List (Int × Int × Int)) : String :=
   if ls.isEmpty then "-" else ";".intercalate (ls.map fun t =>
     if t.2.1 == t.2.2 then s!"{t.1},-1,-1" else s!"{t.1},{t.2.1},{t.2.2}")
 
+/-- "a:b:c;d:e:f" → [[a,b,c],[d,e,f]] (naturals); "-" = empty -/
+def parseTriples (s : String) : Option (List (List Nat)) :=
+  if s = "-" then some [] else (s.splitOn ";").mapM fun t => (t.splitOn ":").mapM String.toNat?
+
+/-- tag-tree encoder ops: [0,x,y,v] = SetValue, [1,x,y,t] = Encode -/
+def ttRun (w h : Nat) : List (List Nat) → J2kTT.TTEnc → List Bool → Option (List Bool)
+  | [], _, acc => some acc
+  | [0, x, y, v] :: rest, s, acc => ttRun w h rest (s.setValue w h x y v) acc
+  | [1, x, y, t] :: rest, s, acc => let r := s.encode w h x y t; ttRun w h rest r.1 (acc ++ r.2)
+  | _, _, _ => none
+
+def ttDecRun (w h : Nat) : List (List Nat) → J2kTT.TTDec → List Bool → List Nat → Option (List Nat × Nat)
+  | [], _, bits, acc => some (acc, bits.length)
+  | [x, y, t] :: rest, s, bits, acc =>
+    match s.decode w h x y t bits with
+    | none => none
+    | some (s', v, bits') => ttDecRun w h rest s' bits' (acc ++ [v])
+  | _, _, _, _ => none
+
+/-- optional integer token: "x" = key absent -/
+def optInt (s : String) : Option (Option Int) := if s = "x" then some none else (s.toInt?).map some
+def optBool (s : String) : Option (Option Bool) := if s = "x" then some none else (s.toInt?).map fun v => some (v != 0)
+
 def step? : List String → Option String
+  | ["j2k-gparams", lv, mct, rate, levels, prog, ly, trn, trd, pcrd, app, bs, ba] =>
+    some <| match optInt lv, optBool mct, optInt rate, optInt prog, optInt ly, optInt trn, optBool pcrd, optBool app,
+        ints? [trd, bs, ba], (if levels = "x" then some none else (parseInts levels).map some) with
+    | some lv, some mct, some rate, some prog, some ly, some trn, some pcrd, some app, some [trd, bs, ba], some levels =>
+      let g : J2kL.GParams := ⟨lv, mct, rate, levels, prog, ly, trn.map (fun n => ⟨n, trd⟩), pcrd, app⟩
+      let e := J2kL.encodeParams bs ba (J2kL.extractGeneric g)
+      s!"ok {boolStr e.Lossless} {e.NumLevels} {e.ProgressionOrder} {e.NumLayers} {boolStr e.TargetRatio.pos} " ++
+        s!"{boolStr e.UsePCRDOpt} {boolStr e.EnableMCT} {boolStr e.AppendLosslessLayer} " ++
+        (if e.LayerRates.isEmpty then "-" else ",".intercalate (e.LayerRates.map fracStr))
+    | _, _, _, _, _, _, _, _, _, _ => "bad-op"
+  | ["j2k-cbrect", bw, bh, cbw, cbh, cbx, cby] => some <| match ints? [bw, bh, cbw, cbh, cbx, cby] with
+    | some [bw, bh, cbw, cbh, cbx, cby] =>
+      s!"ok {J2k.numCb bw cbw} {J2k.numCb bh cbh} " ++ t4 (J2k.encCbRect bw bh cbw cbh cbx cby)
+    | _ => "bad-op"
+  | ["j2k-lblock-enc", l, len, np] => some <| match nats? [l, len, np] with
+    | some [l, len, np] => let r := J2k.encLen l len np; s!"ok {r.1} {bitsToStr r.2}"
+    | _ => "bad-op"
+  | ["j2k-lblock-dec", l, np, bits] => some <| match nats? [l, np] with
+    | some [l, np] => match J2k.decLen l np (strToBits bits) with
+      | some (len, l', rest) => s!"ok {len} {l'} {rest.length}"
+      | none => "err"
+    | _ => "bad-op"
+  | ["j2k-bio-align", hx, n] => some <| match n.toNat? with
+    | some n =>
+      let data := hexToBytes hx
+      match (J2k.BioR.new data).readBitsList n with
+      | some (bs, r) => match r.alignToByte with
+        | some r' => s!"ok {bitsToStr bs} {data.length - r'.data.length}"
+        | none => "err"
+      | none => "err"
+    | none => "bad-op"
+  | ["j2k-tt-enc", w, h, ops] => some <| match nats? [w, h], parseTriples ops with
+    | some [w, h], some ops => match ttRun w h ops J2kTT.TTEnc.init [] with
+      | some bits => "ok " ++ bitsToStr bits
+      | none => "bad-op"
+    | _, _ => "bad-op"
+  | ["j2k-tt-dec", w, h, bits, qs] => some <| match nats? [w, h], parseTriples qs with
+    | some [w, h], some qs => match ttDecRun w h qs J2kTT.TTDec.init (strToBits bits) [] with
+      | some (vs, left) => s!"ok {intsToStr (vs.map Int.ofNat)} {left}"
+      | none => "err"
+    | _, _ => "bad-op"
   -- C19
   | ["j2k-tb-enc", w, h, tw, th, idx] => some <| match ints? [w, h, tw, th, idx] with
     | some [w, h, tw, th, idx] => "ok " ++ t4 (J2k.encTileBounds w h tw th idx)
@@ -39,7 +104,7 @@ def step? : List String → Option String
     | some [len, x0, n] => let r := J2k.resDimsT2 len x0 n.toNat; s!"ok {r.1} {r.2}"
     | _ => "bad-op"
   | ["j2k-enclow", len, n] => some <| match ints? [len, n] with
-    | some [len, n] => s!"ok {J2k.encLowLen len n.toNat}"
+    | some [len, n] => s!"ok {J2k.encLowLen len 0 n.toNat}"
     | _ => "bad-op"
   | ["j2k-split-assemble", w, h, tw, th, vals] => some <| match nats? [w, h, tw, th], parseInts vals with
     | some [w, h, tw, th], some vs =>
@@ -51,7 +116,13 @@ def step? : List String → Option String
     | some [a, b, c, d] => let r := J2k.decCbIndex a b c d; s!"ok {r.1} {r.2}"
     | _ => "bad-op"
   | ["j2k-cbidx-enc", cbX0, pw, cbw] => some <| match ints? [cbX0, pw, cbw] with
-    | some [b, c, d] => let r := J2k.encCbIndex b c d; s!"ok {r.2}"
+    | some [b, c, d] => let r := J2k.encCbIndex 0 b c d; s!"ok {r.2}"
+    | _ => "bad-op"
+  | ["j2k-enclow-at", len, x0, n] => some <| match ints? [len, x0, n] with
+    | some [len, x0, n] => s!"ok {J2k.encLowLen len x0 n.toNat}"
+    | _ => "bad-op"
+  | ["j2k-cbidx-enc-at", origin, cbX0, pw, cbw] => some <| match ints? [origin, cbX0, pw, cbw] with
+    | some [a, b, c, d] => let r := J2k.encCbIndex a b c d; s!"ok {r.2}"
     | _ => "bad-op"
   -- C04
   | ["j2k-sample-read", p, sg, b0, b1] => some <| match ints? [p, sg, b0, b1] with
